@@ -270,6 +270,8 @@ fn run_demux(sessions: &[SenderScn], recv: &RecvSpec, jitter_us: u64, cleanup_ev
         }
         let churn = label == "merged";
         let mut extras: Vec<Extra> = Vec::new();
+        // (event seq at the start of the call, simulated time, Some(session) for a push / None for a cleanup)
+        let mut calls: Vec<(u64, u64, Option<usize>)> = Vec::new();
         for (n, (si, pi)) in order.iter().enumerate() {
             if churn {
                 let main_len = rr.sess_events.borrow().len();
@@ -289,19 +291,54 @@ fn run_demux(sessions: &[SenderScn], recv: &RecvSpec, jitter_us: u64, cleanup_ev
             let (t, b) = &streams[*si][*pi];
             last_t = last_t.max(*t);
             if which.contains(si) {
+                calls.push((ctx.borrow().next_seq(), *t, Some(*si)));
                 rr.push(&eps[*si], b, *t);
             }
             if cleanup_every > 0 && (n as u32 + 1) % cleanup_every == 0 {
+                calls.push((ctx.borrow().next_seq(), last_t, None));
                 rr.cleanup(last_t);
             }
         }
         // let every session time out, then drop
         if recv.session_timeout_ms.is_some() {
+            calls.push((ctx.borrow().next_seq(), last_t + recv.session_timeout_ms.unwrap() * 1000 + 1, None));
             rr.cleanup(last_t + recv.session_timeout_ms.unwrap() * 1000 + 1);
+            calls.push((ctx.borrow().next_seq(), last_t + recv.session_timeout_ms.unwrap() * 2000 + 10, None));
             rr.cleanup(last_t + recv.session_timeout_ms.unwrap() * 2000 + 10);
         }
         let ev_before = rr.sess_events.borrow().clone();
         check_listener(ctx, &ev_before, label, false);
+        // a session is closed by EXPIRY (a close reported during a cleanup call) only when it has been silent for the
+        // session timeout: every packet pushed for it counts as activity, also one that is discarded as already received
+        if let Some(to_ms) = recv.session_timeout_ms {
+            for e in ev_before.iter().filter(|e| !e.open) {
+                let call = match calls.iter().rposition(|c| c.0 < e.seq) {
+                    Some(i) => i,
+                    None => continue,
+                };
+                if calls[call].2.is_some() {
+                    continue; // closed inside a push: a close-session packet
+                }
+                let si = match (0..sessions.len()).find(|i| eps[*i] == e.key.endpoint && sessions[*i].spec.tsi == e.key.tsi) {
+                    Some(i) => i,
+                    None => continue,
+                };
+                let last_push = calls[..call].iter().rev().find(|c| c.2 == Some(si)).map(|c| c.1);
+                if let Some(lp) = last_push {
+                    let silent_us = calls[call].1.saturating_sub(lp);
+                    // allowance for the per-read clock jitter of the simulated monotonic clock
+                    if silent_us + 50 * jitter_us + 1000 < to_ms * 1000 {
+                        violate(
+                            ctx,
+                            "C18/session-expired-while-active",
+                            "-",
+                            format!("{}: session {} (tsi {}) was reported closed by a cleanup only {} us after its last packet was pushed, session timeout {} ms", label, si, sessions[si].spec.tsi, silent_us, to_ms),
+                        );
+                        break;
+                    }
+                }
+            }
+        }
         rr.drop_receiver();
         flute::verif::clock::set_jitter(Duration::ZERO);
         let ev = rr.sess_events.borrow().clone();
